@@ -18,6 +18,8 @@ EXPLANATION = (
     "method/function binding passes the keyword-escape step on all paths and the keyword list contains "
     "keyword.kwlist. Exactly-once per declaration for every input and Python-side dir() need the output and "
     "are not decided.")
+EXPLANATION += (
+    " A6 also accepts the escape step inside a helper method that returns its argument with '_' appended iff it is in the keyword list, and requires that the keyword list is never modified after construction, also not through a local alias. A4 additionally requires that the declaration of a submodule variable is guarded by nothing but the depth test and the first-visit test.")
 ASSUMPTIONS = ["keyword.kwlist of the analysing interpreter (CPython 3.12) is the reference list of reserved words",
                "pybind11's def_submodule returns the existing submodule when called again (so declaring the C++ "
                "variable once is sufficient)"]
